@@ -103,6 +103,7 @@ def check(ctx):
     ctx.rule("R1", "only jobs.py mutates the job dict / task deque, and every function that adds or removes a member of one does the same to the other on the same paths (or only permutes the deque)", floor=6)
     ctx.rule("R2", "fg/bg/disown cannot reach an error return after mutating either structure", floor=2)
     ctx.rule("R3", "the number allocator purges dead jobs first and scans upward from 1; add_job registers that number in both structures", floor=4)
+    ctx.rule("R6", "the purge keeps a task only on the evidence of a poll() that says the process is still running", floor=1)
     ctx.rule("R5", "inside one function every access to the job structures happens under one view of the tables", floor=12)
     ctx.rule("R4", "jobs/bg/disown run against the main thread's table; use_main_jobs restores the thread-local view on every exit; fg is unthreadable", floor=5)
 
@@ -385,6 +386,58 @@ def check(ctx):
         )
     if n5 < 12:
         raise AnalysisError(f"{JB}: only {n5} functions accessing the job structures found")
+
+
+    # ---- R6 liveness evidence in the purge
+    # "finished jobs disappear": the purge keeps a task only on the evidence that its process is still there -
+    # `<proc>.poll() is None`.  A path that keeps a task without having polled it (by status, by age ...) lets a
+    # job that died some other way stay in both structures for ever, and its number is never reused.
+    from ..engine import dtable as _dt
+
+    cdj = mod.func("_clear_dead_jobs")
+
+    def lits_of(conds):
+        out = set()
+        for e, pol in conds:
+            alts = _dt.branches(e, pol)
+            for e2, p2 in alts[0] if len(alts) == 1 else [_dt.normalise(e, pol)]:
+                out.add((unparse(e2), p2))
+        return out
+
+    def polled_alive(lits):
+        return any(t.endswith(".poll() is None") and pol for t, pol in lits)
+
+    n_keep = 0
+    loops_ = [l for l in walk_local(cdj) if isinstance(l, ast.For) and any(isinstance(c.func, ast.Attribute) and c.func.attr == "add" for c in calls_in(l, local=False)) and any(last_attr(c) == "poll" for c in ast.walk(l) if isinstance(c, ast.Call))]
+    preds = [c for n_ in walk_local(cdj) if isinstance(n_, (ast.SetComp, ast.ListComp, ast.GeneratorExp)) for g in n_.generators for i_ in g.ifs for c in ast.walk(i_) if isinstance(c, ast.Call) and isinstance(c.func, ast.Name) and mod.has(c.func.id)]
+    if loops_:
+        for pth in _dt.simplified(_dt.paths(loops_[0].body, stores=True, loops="skip")):
+            removed = any(isinstance(e, ast.Call) and isinstance(e.func, ast.Attribute) and e.func.attr == "add" for e in pth.effects)
+            if removed or pth.outcome == "raise":
+                continue
+            n_keep += 1
+            lits = lits_of(pth.conds)
+            ctx.ob("R6", f"{JB}:_clear_dead_jobs", "a task is kept by the purge only if its process was polled and is still running (`.poll() is None`)", polled_alive(lits), key="purge|kept-without-poll", where=loc(loops_[0]), detail="path: " + "; ".join(("" if p_ else "not ") + t for t, p_ in sorted(lits)))
+    elif preds:
+        pf = mod.func(preds[0].func.id)
+        for pth in _dt.simplified(_dt.paths(pf, loops="skip")):
+            if pth.outcome != "return" or pth.value is None:
+                continue
+            # the ways this return can answer "not dead"
+            for alt in _dt.branches(pth.value, False):
+                if any(isinstance(e, ast.Constant) and bool(e.value) != (not pol) for e, pol in alt if isinstance(e, ast.Constant)):
+                    continue
+                if any(isinstance(e, ast.Constant) and bool(e.value) is True and pol is False for e, pol in alt):
+                    continue
+                lits = lits_of(pth.conds) | {(unparse(e2), p2) for e, pol in alt for e2, p2 in [_dt.normalise(e, pol)]}
+                if any(t in ("True",) and not pol for t, pol in lits):
+                    continue
+                n_keep += 1
+                ctx.ob("R6", f"{JB}:{pf.name}", "a task counts as alive only if its process was polled and is still running (`.poll() is None`)", polled_alive(lits), key="purge|kept-without-poll", where=loc(pf), detail="path: " + "; ".join(("" if p_ else "not ") + t for t, p_ in sorted(lits)))
+    else:
+        raise AnalysisError(f"{JB}:_clear_dead_jobs: neither a collecting loop nor a liveness predicate found")
+    if n_keep < 1:
+        raise AnalysisError(f"{JB}:_clear_dead_jobs: no keep-path enumerated")
 
 
 META = {
